@@ -45,7 +45,7 @@ type poolListener struct {
 	stale   int // insert notifications of a momentum that is not the frontier of the store
 	nilBlk  int // ... carrying account blocks the store does not have
 	context string
-	tracing bool                         // the views of every account are recorded at every notification (reorg.go)
+	tracing bool // the views of every account are recorded at every notification (reorg.go)
 	trace   []map[types.Address]acctView
 }
 
